@@ -219,17 +219,17 @@ theorem newCov_spec (E : HEnv F D Mat Vec) (h : Heap F D Mat Vec) (hw : WF h) (s
   · simp [h', Heap.newCov, Heap.view, Heap.readMat]
 
 /-- what `__array_finalize__` gives an array numpy made, whichever memory it looks at: a dict of
-its own holding the tag and the private copy of the template, no `_orb_frame`; nothing that existed changes -/
+its own holding the tag and the private copy of the template, the template's `_orb_frame`; nothing that existed changes -/
 theorem finalize_spec (E : HEnv F D Mat Vec) (h : Heap F D Mat Vec) (hw : WF h) (i : Nat) (hi : i < h.nobj) (b : Nat) (tr : Bool) (hb : b < h.nbuf) :
     let h' := h.finalize i b tr
     WF h' ∧ h'.nobj = h.nobj + 1 ∧ (∀ j, j < h.nobj → h'.view E j = h.view E j) ∧
     (∀ j, j < h.nobj → (h'.obj h.nobj).data ≠ (h'.obj j).data) ∧
-    (h'.view E h.nobj).tag = (h.view E i).tag ∧ (h'.view E h.nobj).orbFrame = none ∧
+    (h'.view E h.nobj).tag = (h.view E i).tag ∧ (h'.view E h.nobj).orbFrame = (h.view E i).orbFrame ∧
     (h'.view E h.nobj).date = (h.view E i).date ∧ (h'.view E h.nobj).orbCur = (h.view E i).orbCur ∧ (h'.view E h.nobj).orb = (h.view E i).orb ∧
     (h'.obj h.nobj).buf = b := by
   intro h'
   have hobj : ∀ j, j < h.nobj → h'.obj j = h.obj j := fun j hj => upd_other _ _ (Nat.ne_of_lt hj)
-  have e1 : h'.obj h.nobj = { buf := b, tr := tr, data := h.ndata, orbFrame := none } := upd_same _ _ _
+  have e1 : h'.obj h.nobj = { buf := b, tr := tr, data := h.ndata, orbFrame := (h.obj i).orbFrame } := upd_same _ _ _
   have e2 : h'.data h.ndata = h.data (h.obj i).data := upd_same _ _ _
   refine ⟨⟨fun j hj => ?_, fun j hj => ?_, fun k hk => ?_⟩, rfl, fun j hj => ?_, fun j hj => ?_, ?_, ?_, ?_, ?_, ?_, ?_⟩
   · show (h'.obj j).buf < h.nbuf
@@ -268,7 +268,7 @@ of its template. -/
 theorem derive_spec (E : HEnv F D Mat Vec) (h : Heap F D Mat Vec) (hw : WF h) (i : Nat) (hi : i < h.nobj) (val : Mat) :
     let h' := h.derive i val
     WF h' ∧ h'.nobj = h.nobj + 1 ∧ (∀ j, j < h.nobj → h'.view E j = h.view E j) ∧ (∀ j, j < h.nobj → Sep h' h.nobj j) ∧
-    h'.view E h.nobj = { tag := (h.view E i).tag, orbFrame := none, date := (h.view E i).date, orbCur := (h.view E i).orbCur, orb := (h.view E i).orb, mat := val } := by
+    h'.view E h.nobj = { h.view E i with mat := val } := by
   intro h'
   let h0 : Heap F D Mat Vec := { h with buf := upd h.buf h.nbuf val, nbuf := h.nbuf + 1 }
   have hw0 : WF h0 := ⟨fun j hj => Nat.lt_succ_of_lt (hw.buf j hj), hw.data, hw.orb⟩
@@ -285,7 +285,7 @@ theorem derive_spec (E : HEnv F D Mat Vec) (h : Heap F D Mat Vec) (hw : WF h) (i
   · show (h'.obj h.nobj).buf ≠ (h'.obj j).buf
     have : (h'.obj h.nobj).buf = h.nbuf := bb
     rw [this, hobj j hj]; exact Ne.symm (Nat.ne_of_lt (hw.buf j hj))
-  · have e1 : h'.obj h.nobj = { buf := h.nbuf, tr := false, data := h.ndata, orbFrame := none } := upd_same _ _ _
+  · have e1 : h'.obj h.nobj = { buf := h.nbuf, tr := false, data := h.ndata, orbFrame := (h.obj i).orbFrame } := upd_same _ _ _
     have e2 : h'.data h.ndata = h.data (h.obj i).data := upd_same _ _ _
     have e3 : h'.buf h.nbuf = val := upd_same _ _ _
     simp only [Heap.view, Heap.readMat, e1, e2, e3]
